@@ -163,6 +163,10 @@ class BlockEval:
                     self.objects.add(n.value.func.value.id)
                 if isinstance(n, ast.AugAssign) and isinstance(n.target, ast.Name) and isinstance(n.op, (ast.BitOr, ast.BitAnd)):
                     self.objects.add(n.target.id)
+                # containers of containers: `B[r].add(x)`, `B[r] = set()`
+                if isinstance(n, ast.Expr) and isinstance(n.value, ast.Call) and isinstance(n.value.func, ast.Attribute) \
+                        and isinstance(n.value.func.value, ast.Subscript) and isinstance(n.value.func.value.value, ast.Name):
+                    self.objects.add(n.value.func.value.value.id)
         self.block(stmts, list(pc))
         return self.env
 
